@@ -40,6 +40,9 @@ ssize_t __real_writev(int fd, const struct iovec *iov, int cnt);
 ssize_t real_write(int fd, const void *buf, size_t n) { return __real_write(fd, buf, n); }
 ssize_t real_read(int fd, void *buf, size_t n) { return __real_read(fd, buf, n); }
 off_t real_lseek(int fd, off_t off, int wh) { return __real_lseek(fd, off, wh); }
+ssize_t real_pwrite(int fd, const void *buf, size_t n, off_t off) { return __real_pwrite(fd, buf, n, off); }
+ssize_t real_pread(int fd, void *buf, size_t n, off_t off) { return __real_pread(fd, buf, n, off); }
+int real_ftruncate(int fd, off_t len) { return __real_ftruncate(fd, len); }
 
 void io_register(int fd, const char *c) {
     if(fd >= 0 && fd < MAXFD) {
@@ -58,6 +61,37 @@ int io_add_fault(const char *c, const char *sys, long k, int kind, long arg) {
     strncpy(f->sys, sys, sizeof(f->sys) - 1);
     f->k = k; f->kind = kind; f->arg = arg;
     return 1;
+}
+
+/* ---- write watch: every write on class `wcls` must lie inside the allowed extents */
+static char wcls[12];
+static long long wext[4096][2];
+static int nwext = 0;
+long io_oob_count = 0;
+long io_watch_writes = 0;
+void io_watch(const char *c, const char *spec) {
+    strncpy(wcls, c ? c : "", sizeof(wcls) - 1);
+    nwext = 0;
+    io_oob_count = 0;
+    io_watch_writes = 0;
+    const char *p = spec;
+    while(p && *p && nwext < 4096) {
+        char *e;
+        long long a = strtoll(p, &e, 10);
+        if(*e != '-') break;
+        long long b = strtoll(e + 1, &e, 10);
+        wext[nwext][0] = a; wext[nwext][1] = b; nwext++;
+        if(*e == ',') e++;
+        p = e;
+    }
+}
+static void watch_check(const char *c, long long off, long long n, const char *via) {
+    if(!wcls[0] || strcmp(c, wcls) || n <= 0) return;
+    io_watch_writes++;
+    for(int i = 0; i < nwext; i++)
+        if(off >= wext[i][0] && off + n - 1 <= wext[i][1]) return;
+    if(io_oob_count++ < 5)
+        zh_log("{\"ev\":\"oob_write\",\"cls\":\"%s\",\"off\":%lld,\"len\":%lld,\"via\":\"%s\"}", c, off, n, via);
 }
 
 static const char *klass(int fd) {
@@ -148,6 +182,7 @@ ssize_t __wrap_write(int fd, const void *buf, size_t n) {
         return r;
     }
     r = __real_write(fd, buf, n);
+    if(r > 0) { int e = errno; watch_check(c, off, r, "write"); errno = e; }
     if(io_log) { int e = errno; zh_log("{\"ev\":\"io\",\"sys\":\"write\",\"cls\":\"%s\",\"k\":%ld,\"off\":%lld,\"len\":%zu,\"ret\":%zd}", c, k, (long long)off, n, r); errno = e; }
     return r;
 }
@@ -169,6 +204,7 @@ off_t __wrap_lseek64(int fd, off_t off, int wh) { return __wrap_lseek(fd, off, w
 int __wrap_ftruncate(int fd, off_t len) {
     const char *c = klass(fd);
     if(c) {
+        if(wcls[0] && !strcmp(c, wcls)) { if(io_oob_count++ < 5) zh_log("{\"ev\":\"oob_write\",\"cls\":\"%s\",\"via\":\"ftruncate\",\"len\":%lld}", c, (long long)len); }
         count(c, "ftruncate");
         zh_log("{\"ev\":\"io\",\"sys\":\"ftruncate\",\"cls\":\"%s\",\"len\":%lld}", c, (long long)len);
     }
@@ -198,6 +234,7 @@ ssize_t __wrap_pread(int fd, void *buf, size_t n, off_t off) {
 ssize_t __wrap_pread64(int fd, void *buf, size_t n, off_t off) { return __wrap_pread(fd, buf, n, off); }
 ssize_t __wrap_pwrite(int fd, const void *buf, size_t n, off_t off) {
     const char *c = klass(fd);
+    if(c) watch_check(c, off, n, "pwrite");
     if(c) { long k = count(c, "write"); zh_log("{\"ev\":\"io\",\"sys\":\"write\",\"via\":\"pwrite\",\"cls\":\"%s\",\"k\":%ld,\"off\":%lld,\"len\":%zu,\"ret\":%zu}", c, k, (long long)off, n, n); }
     return __real_pwrite(fd, buf, n, off);
 }
@@ -214,6 +251,7 @@ ssize_t __wrap_writev(int fd, const struct iovec *iov, int cnt) {
         off_t off = __real_lseek(fd, 0, SEEK_CUR);
         size_t n = 0;
         for(int i = 0; i < cnt; i++) n += iov[i].iov_len;
+        watch_check(c, off, n, "writev");
         zh_log("{\"ev\":\"io\",\"sys\":\"write\",\"via\":\"writev\",\"cls\":\"%s\",\"k\":%ld,\"off\":%lld,\"len\":%zu,\"ret\":%zu}", c, k, (long long)off, n, n);
     }
     return __real_writev(fd, iov, cnt);
